@@ -70,7 +70,7 @@ fn reply_events(rng: &mut Rng, kind: &str, tid: u16, unit: u8, req: &Request<'_>
     let fc = spec::request_bytes(req).map_or(3, |b| b[0]);
     let mut data: Vec<u8> = match rng.below(14) {
         0..=3 => frame(kind, tid, unit, &good),
-        4 => frame(kind, tid, unit, &[fc | 0x80, rng.u8()]),
+        4 => frame(kind, tid, unit, &[fc | 0x80, rng.exc_code()]),
         5 => frame(kind, tid.wrapping_add(1 + (rng.u16() % 5)), unit, &good),
         6 => frame(kind, tid, unit.wrapping_add(1 + rng.u8() % 254), &good),
         7 => frame(kind, tid, unit, &[(fc % 0x17) + 1, 0x02, 0x00, 0x01]),
